@@ -62,9 +62,20 @@ def main():
         own = n.split('-')[0]
         props = cl if (a.all_checks or DIR != 'seeded') else [p for p in cl if p == own]
         jobs.append((n, props))
+    # baseline: rules that already report something on the unmodified tree (work in progress) are not credited to a seed
+    base = {}
+    for pr in cl:
+        r = subprocess.run([os.path.join(VERIF, 'check'), pr], stdout=subprocess.PIPE, stderr=subprocess.STDOUT, text=True, cwd=VERIF,
+                           env=dict(os.environ, VERIF_EVIDENCE_DIR='/var/tmp/verif-baseline-ev'))
+        base[pr] = set(re.findall(r'\[%s/([^\]]+)\]' % pr, r.stdout))
+    shutil.rmtree('/var/tmp/verif-baseline-ev', ignore_errors=True)
     allres = {}
     with ThreadPoolExecutor(max_workers=a.j) as ex:
         for name, res in ex.map(run_one, jobs):
+            for pr, v in list(res.items()):
+                if pr != '_patch' and base.get(pr):
+                    rules = [x for x in v[1] if x not in base[pr]]
+                    res[pr] = (v[0] if (rules or v[0] != 1) else 0, rules)
             allres[name] = res
             fired = {p: v for p, v in res.items() if p != '_patch' and v[0] == 1}
             other = {p: v[0] for p, v in res.items() if p != '_patch' and v[0] not in (0, 1)}
